@@ -14,6 +14,7 @@ check.ensure_makefile()
 PY
 (cd coq && timeout 3000 make -j16 > ../.cache_coq_build.log 2>&1) || { tail -50 .cache_coq_build.log; echo "coq build failed (checks will report it per property)"; }
 rm -f .cache_coq_build.log
-cp /repo/Cargo.lock harness/Cargo.lock
-(cd harness && cargo build --offline -q 2>&1 | grep -E "^error" -A8 || true)
-test -x .cache/target/debug/vh && echo "setup ok"
+cp "${VERIF_REPO:-/repo}/Cargo.lock" harness/Cargo.lock
+# one binary per property; a binary that does not build is reported by its own check
+(cd harness && cargo build --offline -q --bins --keep-going 2>&1 | grep -E "^error" -A8 || true)
+echo "setup done"
